@@ -22,9 +22,12 @@ EXPECT = [
     ("J:write:f", [5, 6, 9], "OK | f=Int:9,g=Int:6 | f=Int:5,g=Int:6"),
     ("J:write:g", [5, 6, 9], "OK | f=Int:5,g=Int:9 | f=Int:5,g=Int:6"),
     ("J:read:zz", [5, 6, 9], "ERR | f=Int:5,g=Int:6 | f=Int:5,g=Int:6"),
+    ("J:construct-twice", [5, 6, 9], "OK same=0 | f=Int:5,g=Int:6 | f=Int:9,g=Int:6"),
+    ("J:relist", [7, 7], "OK | f=[Int:7,Int:63]"),
 ]
 REPLAY_OP = {"clone": ["J:is:alias", "J:write:f"], "is": ["J:is:alias", "J:is:other", "J:is:build"], "build": ["J:is:build"],
-             "lookup": ["J:write:f", "J:write:g", "J:read:zz"], "field-write": ["J:write:f", "J:write:g"]}
+             "lookup": ["J:write:f", "J:write:g", "J:read:zz"], "field-write": ["J:write:f", "J:write:g"],
+             "construct": ["J:construct-twice"], "field-write-list": ["J:relist"]}
 
 
 def native_suite(nat, release, only=None):
